@@ -105,6 +105,10 @@ impl Stats {
     pub fn label(&mut self, l: &str) {
         *self.labels.entry(l.to_string()).or_insert(0) += 1;
     }
+    /// A dedicated probe reproduced the finding with this key (must be listed in known_findings.json).
+    pub fn probe_hit(&mut self, key: &str) {
+        *self.known_hits.entry(key.to_string()).or_insert(0) += 1;
+    }
     pub fn exclude(&mut self, l: &str) {
         *self.excluded.entry(l.to_string()).or_insert(0) += 1;
     }
@@ -402,6 +406,18 @@ pub fn worker(prop: &dyn Property, a: &WorkerArgs) -> i32 {
         }
     }
 
+    // findings reproduced by probes must be listed
+    if code == 0 {
+        for k in st.known_hits.keys() {
+            if !is_known(&findings, prop.id(), k) {
+                let path = write_replay(prop.id(), &reg, None, &[], &format!("probe reproduced unlisted finding {}", k), "prelude");
+                result = json!({"status": "violation", "replay": path, "msg": format!("probe reproduced a finding that is not listed in known_findings.json: {}", k), "key": k});
+                code = 1;
+                break;
+            }
+        }
+    }
+
     // 2. generated cases
     if code == 0 && !shapes.is_empty() && cfg.cases > 0 {
         let my_cases = (cfg.cases / a.nshards).max(1);
@@ -483,7 +499,19 @@ pub fn replay(props: &[&dyn Property], file: &Path) -> i32 {
     let reg = Registry::load();
     let mut st = Stats::default();
     let r = if j["kind"] == "prelude" {
-        prop.prelude(&reg, 0, 1, Tier::Quick, &mut st)
+        let r = prop.prelude(&reg, 0, 1, Tier::Quick, &mut st);
+        let findings = load_findings();
+        match r {
+            Ok(()) => match st.known_hits.keys().find(|k| !is_known(&findings, pid, k)) {
+                Some(k) => Err(Violation {
+                    key: k.clone(),
+                    msg: format!("probe reproduced a finding that is not listed in known_findings.json: {}", k),
+                }),
+                None => Ok(()),
+            },
+            Err(v) if is_known(&findings, pid, &v.key) => Ok(()),
+            e => e,
+        }
     } else {
         let name = j["shape"].as_str().expect("harness: replay without shape");
         let Some(shape) = reg.by_name(name) else {
